@@ -3,11 +3,12 @@ SPEC = dict(id="C09", kind="pure", binary="c09", gen="c09", corr="C09", n_quick=
     coq_targets=["theories/Props/C09.vo", "theories/Corr/C09.vo"],
     level_text="Selection = ownership (C09_selection, C09_isolation, C09_filter) proved for every cluster in which trials are built by getTrialInstance and "
                "(namespace, name) identifies an experiment; request numbers proved for every snapshot of the joint controller model (C09_numbers); "
-               "label-only selection refuted (the defect repaired by commit 5ae65c0). The REAL suggestion reconciler is run in generated multi-experiment "
+               "label-only selection refuted (the defect repaired by commit 5ae65c0), selection by all of the experiment's current labels refuted (F19, repaired by "
+               "commit 88eea22: trials whose assignment label shadows an experiment label, trials of a relabelled experiment). The REAL suggestion reconciler is run in generated multi-experiment "
                "clusters and the requests captured by fake algorithm / early-stopping services are compared with the model and with the ownership-based statement",
     assumptions=[
-        "labels the algorithm attaches to an assignment do not override a label of util.TrialLabels(experiment) (neither the experiment's own labels nor "
-        "katib.kubeflow.org/experiment); otherwise the suggestion controller's selector misses that own trial",
+        "labels the algorithm attaches to an assignment do not override the experiment-name label katib.kubeflow.org/experiment itself "
+        "(any other label of a trial may differ from the experiment's current labels)",
         "trials are created only by getTrialInstance (no foreign object carries the experiment label in the experiment's namespace)",
         "the early-stopping service receives the same trial list (one ConvertTrials call per request in SyncAssignments)",
     ],
